@@ -11,10 +11,10 @@ pub fn prop() -> Prop {
     Prop {
         id: "C20",
         level: "model_checking",
-        rule: "the real jawk binary built from the working tree, spawned with pipes: 18 inputs (clean, noisy, junk words and broken literals between values, truncated tail, empty; 3000 rows, one 70 KB row, 1500 diagnostics, a long clean stream with a truncated tail - output beyond every stdout buffer) x 4 --on-error policies x 22 configurations (9 valid pipelines incl. options unrelated to error handling such as --only-objects-and-arrays, --unique, cache size, styles, split+group; 11 classes of invalid configuration, missing input file, file argument) x stdout in {pipe, pipe whose reader is gone (EPIPE), /dev/full} x row separator with/without newline; all combinations; non-trivial = the run produces output or must fail; distinct by construction",
+        rule: "the real jawk binary built from the working tree, spawned with pipes: 18 inputs (clean, noisy, junk words and broken literals between values, truncated tail, empty; 3000 rows, one 70 KB row, 1500 diagnostics, a long clean stream with a truncated tail - output beyond every stdout buffer) x 4 --on-error policies x 22 configurations (9 valid pipelines incl. options unrelated to error handling such as --only-objects-and-arrays, --unique, cache size, styles, split+group; 11 classes of invalid configuration, missing input file, file argument) x stdout in {pipe, pipe whose reader is gone (EPIPE), /dev/full} x row separator with/without newline; all combinations; non-trivial = the run produces output or must fail; distinct by construction; inputs that cannot be read: /proc/self/mem as a file argument after a readable file, a directory as the standard input",
         explanation: "every combination is executed as a child process and compared with the in-process run of the same arguments: stdout = exactly the in-process stdout sink, under --on-error=stderr the diagnostics = exactly the in-process stderr sink and none on stdout, exit status 0 iff the in-process Result is Ok and stdout accepted every byte, otherwise non-zero with a non-empty stderr",
         assumptions: a,
-        guards: vec!["output-beyond-every-buffer", "exit-nonzero-on-config-error", "exit-nonzero-on-full-stdout", "epipe", "stderr-policy-diagnostics", "unterminated-buffer-flush", "panic-policy-fails", "missing-file"],
+        guards: vec!["unreadable-input", "output-beyond-every-buffer", "exit-nonzero-on-config-error", "exit-nonzero-on-full-stdout", "epipe", "stderr-policy-diagnostics", "unterminated-buffer-flush", "panic-policy-fails", "missing-file"],
         budget_s: (100, 900),
         single_worker: false,
         run,
@@ -115,7 +115,43 @@ fn run(ctx: &mut Ctx) {
             let a2 = vec![format!("--on-error={policy}"), f1.to_string_lossy().into_owned(), missing.to_string_lossy().into_owned()];
             ctx.guard("missing-file");
             one(ctx, &bin, &a2, b"1", Some(&a2), &format!("missing file policy {policy}"), true, policy, ii);
+            // inputs that cannot be READ: a file whose first read fails (EIO) after a readable file, and a standard input
+            // whose every read fails (it is a directory)
+            let a3 = vec![format!("--on-error={policy}"), f1.to_string_lossy().into_owned(), "/proc/self/mem".to_string()];
+            ctx.guard("unreadable-input");
+            one(ctx, &bin, &a3, b"1", Some(&a3), &format!("unreadable file policy {policy}"), true, policy, ii);
             let _ = std::fs::remove_file(&f1);
+            for extra in [vec![], vec!["--select=.=v".to_string()], vec!["--merge".to_string()]] {
+                let mut a4 = vec![format!("--on-error={policy}")];
+                a4.extend(extra);
+                for mode in [OutMode::Pipe, OutMode::DevFull] {
+                    match drive::run_child(&bin, &a4, drive::STDIN_IS_A_DIRECTORY, mode) {
+                        Ok(c) => {
+                            ctx.rep.evaluations += 1;
+                            ctx.case_done();
+                            ctx.trace_validated();
+                            ctx.nontrivial();
+                            let rcase = Case { args: a4.clone(), input: Input::Stdin(b"<a directory>".to_vec()), rplan: Default::default(), wplan: Default::default() };
+                            let brief = format!("exit={:?} signal={:?} stdout={:?} stderr={:?}", c.code, c.signal, drive::trunc(&String::from_utf8_lossy(&c.stdout), 200), drive::trunc(&String::from_utf8_lossy(&c.stderr), 200));
+                            let sig = format!("standard input is a directory, policy {policy} stdout {mode:?}");
+                            if c.timed_out {
+                                ctx.violation("child-hangs", &sig, &[rcase], "the process ends".into(), brief);
+                            } else if c.code == Some(0) {
+                                ctx.violation("zero-exit-on-failed-run", &sig, &[rcase], "a non-zero exit status (the input cannot be read)".into(), brief);
+                            } else if c.code == Some(101) || c.signal.is_some() {
+                                ctx.violation("panic-exit", &sig, &[rcase], "an error exit, not a panic".into(), brief);
+                            } else if c.stderr.is_empty() {
+                                ctx.violation("failure-without-message", &sig, &[rcase], "a message on standard error".into(), brief);
+                            } else if !c.stdout.is_empty() {
+                                ctx.violation("stdout-differs-from-library-run", &sig, &[rcase], "nothing on standard output".into(), brief);
+                            } else {
+                                ctx.outcome("ok");
+                            }
+                        }
+                        Err(e) => ctx.machinery_error(format!("cannot run child: {e}")),
+                    }
+                }
+            }
         }
         if ctx.time_up() {
             ctx.cap("inputs");
